@@ -154,6 +154,12 @@ func bitAnd(a, b bit) bit {
 	case a.Src == b.Src && a.Idx == b.Idx && ((a.K == bsrc && b.K == bnot) || (a.K == bnot && b.K == bsrc)):
 		return bit{K: b0}
 	}
+	if (a.K == bsrc || a.K == bnot) && a.Src == staleSrc {
+		return bit{K: bsrc, Src: staleSrc}
+	}
+	if (b.K == bsrc || b.K == bnot) && b.Src == staleSrc {
+		return bit{K: bsrc, Src: staleSrc}
+	}
 	return bit{K: btop}
 }
 
@@ -169,6 +175,12 @@ func bitOr(a, b bit) bit {
 		return a
 	case a.Src == b.Src && a.Idx == b.Idx && ((a.K == bsrc && b.K == bnot) || (a.K == bnot && b.K == bsrc)):
 		return bit{K: b1}
+	}
+	if (a.K == bsrc || a.K == bnot) && a.Src == staleSrc {
+		return bit{K: bsrc, Src: staleSrc}
+	}
+	if (b.K == bsrc || b.K == bnot) && b.Src == staleSrc {
+		return bit{K: bsrc, Src: staleSrc}
 	}
 	return bit{K: btop}
 }
@@ -199,6 +211,12 @@ func bitXor(a, b bit) bit {
 		return bitNot(a)
 	case a == b && a.K != btop:
 		return bit{K: b0}
+	}
+	if (a.K == bsrc || a.K == bnot) && a.Src == staleSrc {
+		return bit{K: bsrc, Src: staleSrc}
+	}
+	if (b.K == bsrc || b.K == bnot) && b.Src == staleSrc {
+		return bit{K: bsrc, Src: staleSrc}
 	}
 	return bit{K: btop}
 }
@@ -799,4 +817,87 @@ func (e *BitEval) feasible(pred, blk *ssa.BasicBlock) bool {
 		}
 	}
 	return true
+}
+
+// bvApply applies a binary operator to two vectors of width w (constant
+// folding, bitwise transfer, constant shifts, disjoint-support addition,
+// power-of-two multiplication); anything else yields top.
+func bvApply(op token.Token, a, b BV, w int, signed bool) BV {
+	a, b = a.resize(w, false), b.resize(w, false)
+	bw := func(f func(x, y bit) bit) BV {
+		out := make(BV, w)
+		for i := 0; i < w; i++ {
+			out[i] = f(a[i], b[i])
+		}
+		return out
+	}
+	switch op {
+	case token.AND:
+		return bw(bitAnd)
+	case token.OR:
+		return bw(bitOr)
+	case token.XOR:
+		return bw(bitXor)
+	case token.AND_NOT:
+		return bw(func(x, y bit) bit { return bitAnd(x, bitNot(y)) })
+	case token.SHL, token.SHR:
+		k, ok := b.Const()
+		if !ok {
+			return bvTop(w)
+		}
+		out := make(BV, w)
+		for i := 0; i < w; i++ {
+			src := i - int(k)
+			if op == token.SHR {
+				src = i + int(k)
+			}
+			switch {
+			case src >= 0 && src < w:
+				out[i] = a[src]
+			case op == token.SHR && signed && w > 0:
+				out[i] = a[w-1]
+			default:
+				out[i] = bit{K: b0}
+			}
+		}
+		return out
+	case token.ADD, token.SUB, token.MUL:
+		ka, oka := a.Const()
+		kb, okb := b.Const()
+		if oka && okb {
+			switch op {
+			case token.ADD:
+				return bvConst(ka+kb, w)
+			case token.SUB:
+				return bvConst(ka-kb, w)
+			default:
+				return bvConst(ka*kb, w)
+			}
+		}
+		if op == token.ADD {
+			disjoint := true
+			for i := 0; i < w; i++ {
+				if a[i].K != b0 && b[i].K != b0 {
+					disjoint = false
+				}
+			}
+			if disjoint {
+				return bw(bitOr)
+			}
+		}
+		if op == token.MUL && okb && kb != 0 && kb&(kb-1) == 0 {
+			sh := 0
+			for kb>>uint(sh) != 1 {
+				sh++
+			}
+			out := make(BV, w)
+			for i := 0; i < w; i++ {
+				if i-sh >= 0 {
+					out[i] = a[i-sh]
+				}
+			}
+			return out
+		}
+	}
+	return bvTop(w)
 }
